@@ -63,6 +63,13 @@ func (o *Options) ServerOptions() []string {
 	if o.PreserveDevices() {
 		argstr += "D"
 	}
+	// rsync/options.c: -D implies --specials on the remote side
+	specialsArg := ""
+	if o.PreserveDevices() && !o.PreserveSpecials() {
+		specialsArg = "--no-specials"
+	} else if !o.PreserveDevices() && o.PreserveSpecials() {
+		specialsArg = "--specials"
+	}
 	if o.PreserveMTimes() {
 		argstr += "t"
 	}
@@ -100,6 +107,9 @@ func (o *Options) ServerOptions() []string {
 
 	if argstr != "-" {
 		sargv = append(sargv, argstr)
+	}
+	if specialsArg != "" {
+		sargv = append(sargv, specialsArg)
 	}
 
 	// if (block_size) {
